@@ -322,7 +322,7 @@ def check(ctx):
         raise AnalysisError('load_dependencies_recurse: expected one require call')
     flags = set(re.findall(r'@carried:(\w+)#', ' '.join(LD.atoms())))
     for e in req[:1]:
-        foreign = [a_ for a_ in gsa.atoms(gsa.disj(*[x.cond for x in req])) if not a_.startswith('@') and not re.match(r'^\w+\[\w+\]$|^\w+$', a_) and not a_.startswith('get_typelib_dependencies(')
+        foreign = [a_ for a_ in gsa.atoms(gsa.disj(*[x.cond for x in req])) if not a_.startswith('@') and not re.match(r'^\*?\w+\[\w+\]$|^\*?\w+$', a_) and not a_.lstrip('*').startswith('get_typelib_dependencies(')
                    and not a_.startswith('g_irepository_require(') and not a_.startswith('require_internal(')]
         r4.check(bool(e.loops) and not foreign, 'every dependency is required', REL, e.line,
                  'inside the dependency loop the require call is skipped under %s: a dependency recorded at one version is not checked against '
